@@ -165,18 +165,26 @@ fn validator_for(kind: &str) -> &'static ValidatorFn {
 }
 
 macro_rules! parse_impl {
-    ($V:ty, $P:ty, $key:expr, $ia:tt, $st:ident, $toks:ident) => {{
+    ($V:ty, $P:ty, $key:expr, $key2:expr, $ia:tt, $st:ident, $toks:ident) => {{
         let key = $key;
+        let key2 = $key2;
+        let alt_for: Vec<usize> = $st["alt_key_for"].as_array().cloned().unwrap_or_default().iter().filter_map(|x| x.as_u64().map(|y| y as usize)).collect();
         let layer = $st["layer"].as_str().unwrap_or("generic");
         let footer = $st["footer"].as_str();
         let assertion = $st["assertion"].as_str();
         let checks: Vec<J> = $st["checks"].as_array().cloned().unwrap_or_default();
         let vals: Vec<J> = $st["validators"].as_array().cloned().unwrap_or_default();
         let mut outs = vec![];
+        let pre_ops: Vec<J> = $st["pre_ops"].as_array().cloned().unwrap_or_default();
+        let pre_static: Vec<(String, &'static str)> = pre_ops.iter().map(|o| (o[0].as_str().unwrap_or("").to_string(), leak(o[1].as_str().unwrap_or("")))).collect();
         macro_rules! configure {
             ($p:ident) => {
-                if let Some(f) = footer { $p.set_footer(Footer::from(f)); }
+                if let Some(f) = footer { $p.set_footer(Footer::from(leak(f))); }
                 parse_impl!(@ia $ia, $p, assertion);
+                for (name, val) in pre_static.iter() {
+                    if name == "footer" { $p.set_footer(Footer::from(*val)); }
+                    if name == "assertion" { parse_impl!(@ia $ia, $p, Some(*val)); }
+                }
                 for c in &checks {
                     let k = c["key"].as_str().unwrap_or("");
                     let sv: &'static str = leak(c["value"].as_str().unwrap_or(""));
@@ -197,9 +205,9 @@ macro_rules! parse_impl {
                 let k = v["key"].as_str().unwrap_or("");
                 if let Ok(cc) = CustomClaim::try_from(k) { p.validate_claim(cc, validator_for(v["kind"].as_str().unwrap_or("accept"))); }
             }
-            for t in $toks.iter() {
+            for (ti, t) in $toks.iter().enumerate() {
                 CALLS.with(|c| c.borrow_mut().clear());
-                let r = guarded(|| p.parse(t, &key).map(|v| v.to_string()).map_err(|e| format!("{:?}", e)));
+                let r = guarded(|| p.parse(t, if alt_for.contains(&ti) { &key2 } else { &key }).map(|v| v.to_string()).map_err(|e| format!("{:?}", e)));
                 let calls: Vec<J> = CALLS.with(|c| c.borrow().iter().map(|(k, v)| json!([k, v])).collect());
                 outs.push(json!({"parse": r.kind(), "value": match &r { Outcome::Ok(s) | Outcome::Err(s) | Outcome::Panic(s) => s.clone() }, "validator_calls": calls}));
             }
@@ -216,29 +224,30 @@ macro_rules! parse_impl {
                 }
             }
             if !ext.is_empty() { p.extend_validation_claims(ext); }
-            for t in $toks.iter() {
+            for (ti, t) in $toks.iter().enumerate() {
                 CALLS.with(|c| c.borrow_mut().clear());
-                let r = guarded(|| p.parse(t, &key).map(|v| v.to_string()).map_err(|e| format!("{:?}", e)));
+                let r = guarded(|| p.parse(t, if alt_for.contains(&ti) { &key2 } else { &key }).map(|v| v.to_string()).map_err(|e| format!("{:?}", e)));
                 let calls: Vec<J> = CALLS.with(|c| c.borrow().iter().map(|(k, v)| json!([k, v])).collect());
                 outs.push(json!({"parse": r.kind(), "value": match &r { Outcome::Ok(s) | Outcome::Err(s) | Outcome::Panic(s) => s.clone() }, "validator_calls": calls}));
             }
         }
         outs
     }};
-    (@ia yes, $p:ident, $a:ident) => { if let Some(a) = $a { $p.set_implicit_assertion(ImplicitAssertion::from(a)); } };
-    (@ia no, $p:ident, $a:ident) => { let _ = $a; };
+    (@ia yes, $p:ident, $a:expr) => { if let Some(a) = $a { $p.set_implicit_assertion(ImplicitAssertion::from(leak(a))); } };
+    (@ia no, $p:ident, $a:expr) => { let _ = $a; };
 }
 
-fn parser_run(proto: &str, pk: &[u8], st: &J, toks: &[String]) -> Vec<J> {
+fn parser_run(proto: &str, pk: &[u8], alt: &[u8], st: &J, toks: &[String]) -> Vec<J> {
     match proto {
-        "v1.local" => parse_impl!(V1, Local, symk::<V1>(pk), no, st, toks),
-        "v2.local" => parse_impl!(V2, Local, symk::<V2>(pk), no, st, toks),
-        "v3.local" => parse_impl!(V3, Local, symk::<V3>(pk), yes, st, toks),
-        "v4.local" => parse_impl!(V4, Local, symk::<V4>(pk), yes, st, toks),
-        "v1.public" => parse_impl!(V1, Public, PasetoAsymmetricPublicKey::<V1, Public>::from(pk), no, st, toks),
-        "v2.public" => { let k = Key::<32>::from(arr::<32>(pk)); parse_impl!(V2, Public, PasetoAsymmetricPublicKey::<V2, Public>::from(&k), no, st, toks) }
-        "v3.public" => { let k = Key::<49>::from(arr::<49>(pk)); match PasetoAsymmetricPublicKey::<V3, Public>::try_from(&k) { Ok(pkk) => parse_impl!(V3, Public, pkk, yes, st, toks), Err(e) => vec![json!({"key_error": format!("{:?}", e)})] } }
-        _ => { let k = Key::<32>::from(arr::<32>(pk)); parse_impl!(V4, Public, PasetoAsymmetricPublicKey::<V4, Public>::from(&k), yes, st, toks) }
+        "v1.local" => parse_impl!(V1, Local, symk::<V1>(pk), symk::<V1>(alt), no, st, toks),
+        "v2.local" => parse_impl!(V2, Local, symk::<V2>(pk), symk::<V2>(alt), no, st, toks),
+        "v3.local" => parse_impl!(V3, Local, symk::<V3>(pk), symk::<V3>(alt), yes, st, toks),
+        "v4.local" => parse_impl!(V4, Local, symk::<V4>(pk), symk::<V4>(alt), yes, st, toks),
+        "v1.public" => parse_impl!(V1, Public, PasetoAsymmetricPublicKey::<V1, Public>::from(pk), PasetoAsymmetricPublicKey::<V1, Public>::from(alt), no, st, toks),
+        "v2.public" => { let k = Key::<32>::from(arr::<32>(pk)); let k2 = Key::<32>::from(arr::<32>(alt)); parse_impl!(V2, Public, PasetoAsymmetricPublicKey::<V2, Public>::from(&k), PasetoAsymmetricPublicKey::<V2, Public>::from(&k2), no, st, toks) }
+        "v3.public" => { let k = Key::<49>::from(arr::<49>(pk)); let k2 = Key::<49>::from(arr::<49>(if alt.len() == 49 { alt } else { pk }));
+            match (PasetoAsymmetricPublicKey::<V3, Public>::try_from(&k), PasetoAsymmetricPublicKey::<V3, Public>::try_from(&k2)) { (Ok(a), Ok(b)) => parse_impl!(V3, Public, a, b, yes, st, toks), _ => vec![json!({"key_error": "v3 public key rejected"})] } }
+        _ => { let k = Key::<32>::from(arr::<32>(pk)); let k2 = Key::<32>::from(arr::<32>(alt)); parse_impl!(V4, Public, PasetoAsymmetricPublicKey::<V4, Public>::from(&k), PasetoAsymmetricPublicKey::<V4, Public>::from(&k2), yes, st, toks) }
     }
 }
 
@@ -308,7 +317,8 @@ pub fn step(env: &mut Env, op: &str, st: &J, out: &str) -> Option<J> {
             let proto = st["proto"].as_str().unwrap_or("v4.local");
             let pk = env.bytes_of(&st["key"]);
             let toks: Vec<String> = st["tokens"].as_array().cloned().unwrap_or_default().iter().map(|t| env.str_of(t).unwrap_or_default()).collect();
-            let outs = parser_run(proto, &pk, st, &toks);
+            let alt = env.bytes_of(&st["alt_key"]);
+            let outs = parser_run(proto, &pk, if alt.is_empty() { &pk } else { &alt }, st, &toks);
             Some(json!({"parser_run": out, "results": outs}))
         }
         _ => None,
